@@ -101,10 +101,11 @@ def main():
         assert out.strip() == '', '/repo not restored'
     dst = os.path.join(ROOT, 'seeded', name)
     os.makedirs(dst, exist_ok=True)
-    shutil.copy(patch, os.path.join(dst, 'patch.diff'))
-    shutil.copy(demo, os.path.join(dst, 'demo.cc'))
+    if os.path.realpath(mdir) != os.path.realpath(dst):
+        shutil.copy(patch, os.path.join(dst, 'patch.diff'))
+        shutil.copy(demo, os.path.join(dst, 'demo.cc'))
     meta_out = dict(property=meta.get('property', props[0] if props else ''), summary=meta.get('summary', ''), needs=meta.get('needs', ''),
-                    why_tests_pass=meta.get('why_tests_pass', ''), author_ran=meta.get('ran', ''), confirmed=confirmed, confirmation_ran=ran,
+                    why_tests_pass=meta.get('why_tests_pass', ''), author_ran=meta.get('author_ran', meta.get('ran', '')), confirmed=confirmed, confirmation_ran=ran,
                     repo_head=sh('git -C /repo rev-parse --short HEAD')[1].strip(), checks=results)
     # keep earlier check results (e.g. from another tier)
     old = os.path.join(dst, 'meta.json')
